@@ -116,6 +116,8 @@ class Universe:
             self._build_prices()
         if attach:
             for t, a in case["wallet"].items():
+                if case.get("sparse_wallet") and D(a) == 0:
+                    continue
                 self.broker.set_balance(self.tok[t], D(a))
         for o in self.obs:
             o.on_built(self)
@@ -582,6 +584,9 @@ def make_script(u: Universe):
     class Script(Strategy):
         def initialize(self):
             self.triggers.append(PeriodTrigger(pd.Timedelta(minutes=u.k), self._vf_trigger, trigger_immediately=True))
+            u.bar = 0
+            u.prices = u.actuator.token_prices.iloc[0]
+            self._vf_ops("init", 0)
 
         def _vf_trigger(self, snap):
             self._vf_phase("trigger", snap)
@@ -835,5 +840,5 @@ def manager_inputs(case):
     data = BacktestData({m.market_info: u.frames[key] for key, m in u.m.items()}, (u.price_frame, USD if case["quote"] == "USD" else u.tok[case["quote"]]))
     for m in markets:
         pass
-    cfg = StrategyConfig({u.tok[t]: D(a) for t, a in case["wallet"].items()}, markets)
+    cfg = StrategyConfig({u.tok[t]: D(a) for t, a in case["wallet"].items() if not (case.get("sparse_wallet") and D(a) == 0)}, markets)
     return cfg, data, BacktestConfig(print_actions=False, print_result=False, interval=f"{case['k']}min")
